@@ -298,7 +298,8 @@ fn proof_canonicity(run: &mut Run, tier: Tier, pp: &PublicParameters) {
 }
 
 fn parameters(run: &mut Run, tier: Tier) {
-    let degrees: Vec<usize> = tier.pick(vec![1, 2, 7, 16, 33], vec![1, 2, 3, 7, 8, 16, 17, 33, 64, 130]);
+    // small degrees, degrees around 256-point blocks, and parameter sets beyond a thousand points
+    let degrees: Vec<usize> = tier.pick(vec![1, 2, 7, 16, 33, 249, 256, 1017, 1024, 1300], vec![1, 2, 3, 7, 8, 16, 17, 33, 64, 130, 249, 250, 255, 256, 505, 512, 1017, 1018, 1024, 1300, 2041, 2048, 4096, 5000]);
     for d in degrees {
         let mut rng = crate::rng::SeedRng(Rho::new(seed(), 1600 + d as u64));
         let pp = PublicParameters::setup(d, &mut rng).expect("setup");
